@@ -297,10 +297,18 @@ let prefix_of env ns =
   | Some p -> p
   | None -> []
 
+(** val nsprefix : nsenv -> str -> str **)
+
+let nsprefix env ns = match ns with
+| [] -> []
+| _ :: _ -> prefix_of env ns
+
 (** val tag_of : nsenv -> qname -> str **)
 
 let tag_of env q =
-  app (prefix_of env (fst q)) (app (cCOLON :: []) (snd q))
+  match nsprefix env (fst q) with
+  | [] -> snd q
+  | c :: l -> app (c :: l) (app (cCOLON :: []) (snd q))
 
 (** val sXMLNSCOLON : str **)
 
